@@ -511,6 +511,16 @@ def build_paths(ctx, kms: list, rng: random.Random, families_per_type: int, with
         def pfr_fn(vals, fam=fam):
             c = CMPA(family=fam)
             reg = c.registers.find_reg("ROTKH")
+            how = rng.randrange(4)
+            if how == 1:
+                # the page was read back from a part provisioned with other keys: the configuration carries their hash
+                c.set_config({"ROTKH": core.rand_bytes(rng, reg.width // 8).hex()})
+                ctx.count("pfr_rotkh_over_an_earlier_value")
+            elif how == 2:
+                # the same object served another key set before
+                c.export(keys=[_to_pub(v) for v in vals][::-1] + [], draw=False)
+                c.export(rotkh=core.rand_bytes(rng, 32), draw=False)
+                ctx.count("pfr_rotkh_over_an_earlier_value")
             blob = c.export(keys=[_to_pub(v) for v in vals], draw=False)
             field = blob[reg.offset:reg.offset + reg.width // 8]
             return field, None
@@ -728,6 +738,9 @@ def dc_config(kms: list, used: int, fam: str, dck: str, forms: list) -> dict:
             "rotk": kms[used].path("priv.pem"), "dck": dck}
 
 
+_DC_KEPT: list = []  # (credential object, reference hash, detail) of earlier cases of this worker process
+
+
 def eval_dc(ctx, workload: str, kms: list, rng: random.Random, lz: str = "") -> None:
     """DebugCredentialCertificate.calculate_hash(): reference, invariance under the used root (rot_id) and the input form."""
     from spsdk.dat.debug_credential import DebugCredentialCertificate
@@ -755,8 +768,20 @@ def eval_dc(ctx, workload: str, kms: list, rng: random.Random, lz: str = "") -> 
             if used:  # vary one form together with the used index
                 forms[rng.randrange(n)] = core.pick(rng, forms_all)
             detail = {"path": name, "family": fam, "keys": [k.name for k in kms], "rot_id": used, "forms": forms}
-            st, val = attempt(lambda: DebugCredentialCertificate.create_from_yaml_config(dc_config(kms, used, fam, dck, forms)).calculate_hash())
+            made = []
+            st, val = attempt(lambda: (made.append(DebugCredentialCertificate.create_from_yaml_config(dc_config(kms, used, fam, dck, forms))),
+                                       made[0].calculate_hash())[1])
             sig = [workload, kind, n, name, st]
+            # the credentials made earlier by this process (other curves, other key counts) are asked again now that another
+            # one exists: their value depends on their own keys only
+            for old, old_want, old_detail in _DC_KEPT:
+                st2, val2 = attempt(old.calculate_hash)
+                ctx.count("dc_hash_asked_again_later")
+                if st2 != "ok" or val2 != old_want:
+                    ctx.violation("dc/hash-of-an-earlier-credential-changed-after-another-one-was-made",
+                                  dict(old_detail, later=detail, now=val2 if st2 == "ok" else core.exc_brief(val2), before=old_want))
+                    _DC_KEPT.clear()
+                    break
             if st == "refused":
                 ctx.refused(sig, f"{name} {kind} n={n}: {core.exc_brief(val)}")
                 break
@@ -773,6 +798,9 @@ def eval_dc(ctx, workload: str, kms: list, rng: random.Random, lz: str = "") -> 
             if val != want:
                 ctx.violation(f"{name}/hash-differs-from-reference{sfx}", dict(detail, got=val, want=want))
                 break
+            if made and (used == 0 or rng.random() < 0.3):
+                _DC_KEPT.append((made[0], want, detail))
+                del _DC_KEPT[:-8]
             if base is None:
                 base = val
             else:
